@@ -19,7 +19,7 @@ def decoded_publish(r: Ref['mqtt.pdu.PUBLISH']) -> bool:
 def _(self: Ref['mqtt.client.pubsubs.MQTTProtocol'], response: Ref['mqtt.pdu.PUBLISH']):
     requires(is_obj(self.addr))
     requires(live(self) and ping_ok(self))
-    requires(decoded_publish(response))
+    requires(decoded_publish(response) and tagged(self, response))
     # the fields as received (entry values: the handler's frame does not promise to leave the packet object alone)
     q = as_int(response.qos)
     mid = response.msgId
@@ -51,7 +51,7 @@ def _(self: Ref['mqtt.client.pubsubs.MQTTProtocol'], response: Ref['mqtt.pdu.PUB
 def _(self: Ref['mqtt.client.pubsubs.MQTTProtocol'], response: Ref['mqtt.pdu.PUBREL']):
     requires(is_obj(self.addr))
     requires(live(self) and ping_ok(self))
-    requires(is_int(response.msgId) and 0 <= response.msgId <= 65535)
+    requires(is_int(response.msgId) and 0 <= response.msgId <= 65535 and not_foreign(self, response))
     id = as_int(response.msgId)
     hit = contains(X(self), id)
     msg = X(self)[id]
@@ -66,3 +66,4 @@ def _(self: Ref['mqtt.client.pubsubs.MQTTProtocol'], response: Ref['mqtt.pdu.PUB
                          if is_func(self.onPublish) else cb_unchanged())))
     ensures(implies(not hit, cb_unchanged()))
     ensures(forall(lambda k: implies(k != id, contains(X(self), k) == old(contains(X(self), k)) and X(self)[k] == old(X(self)[k]))))
+
